@@ -387,7 +387,7 @@ def greedy_simplify(mod, case, sig, max_steps=400):
             if steps >= max_steps:
                 break
             try:
-                out = mod.judge(cand)
+                out = _safe_judge(mod, cand)
             except BaseException:  # noqa: BLE001
                 continue
             if any(f.sig == sig for f in out.findings):
@@ -504,7 +504,7 @@ def run(prop_id, tier):
             try:
                 case2 = greedy_simplify(mod, case, sig)
                 if case2 is not case:
-                    out = mod.judge(case2)
+                    out = _safe_judge(mod, case2)
                     for f in out.findings:
                         if f.sig == sig:
                             case, msg, detail = case2, f.msg, f.detail
@@ -604,7 +604,7 @@ def replay(path):
     saved = sys.stdout
     quiet_stdout()
     try:
-        out = mod.judge(data["case"])
+        out = _safe_judge(mod, data["case"])
     finally:
         sys.stdout = saved
     known, _fixed = load_known(prop_id)
